@@ -319,7 +319,12 @@ def _type(eng, args, kwargs, node):
         return b[m[pt]] if m[pt] in b else TypeObj('NoneType', None, ('none',))
     if isinstance(v, Obj) and v.info is not None:
         return v.info
+    if isinstance(v, Obj):
+        return _STUB_TYPES.setdefault(v.cls, TypeObj('class:' + v.cls, None, ('stub:' + v.cls,)))
     raise Unsupported('type() of %s' % pt)
+
+
+_STUB_TYPES = {}
 
 
 def _anyall(is_any):
